@@ -32,6 +32,10 @@ ASSUMPTIONS = [
     "node identifiers are abstracted: the model names graph nodes by their version key (the resolver keeps one node per "
     "version key; theorem C07_one_version_partial proves NoDup of the node list)",
     "single registry: a client answer carrying a registries attribute is outside the modelled fragment (model stops with EOutside)",
+    "remaining partial statements: one version per artifact when a package occurs with two (classifier, type) variants in the "
+    "graph (false: F-C07-1, shape proved in C07_shared_edges); nearest-wins after a retry (false: F-C07-2; what holds is "
+    "C07_nearest_requirements on the accumulated lists); the hypothesis single_variant of C07_one_version_single_variant is read "
+    "off the returned graph and is the complement of the oracle's class predicate for F-C07-1",
     "sort.Slice inside resolve.SortVersions is modelled as the stable insertion sort Go uses for at most 12 elements; "
     "longer version lists are outside the fragment",
     "theorems that mention the client assume only what a Go client cannot violate: Version answers carry the key asked for "
@@ -56,8 +60,14 @@ MANIFEST = dict(
           "exclusion sets are the ones accumulated along the creating path and no edge reaches an excluded name; the root's "
           "management overrides every transitive declaration; every edge/node error is a findMatch answer and every kept "
           "declaration of every traversed node is represented (no-match reported); a pass only appends requirements, an "
-          "incompatible pass strictly lengthens a list, resolve returns the graph of one pass. One-version and nearest-wins are "
-          "proved in restricted form (edges not made through the shared-node shortcut; single pass) and REFUTED in full by two "
+          "incompatible pass strictly lengthens a list, resolve returns the graph of one pass. One-version is proved for edges not "
+          "made through the shared-node shortcut, those edges are characterised exactly (C07_shared_edges: their target was created "
+          "for another artifact key) and one-version is proved IN FULL for graphs in which no package occurs with two "
+          "(classifier, type) variants (C07_one_version_single_variant); nearest-wins is proved for a successful first pass, for soft "
+          "AND range first declarations (C07_first_declaration_decides: the first declaration of a key decides alone), and for every "
+          "number of passes the selected version is what findMatch answers on the FINAL requirement list of the key "
+          "(C07_final_list_decides, the rule the oracle re-evaluates in python on the Go graphs). Both unrestricted clauses are "
+          "REFUTED in full by two "
           "witnesses that are also Go runs (known findings F-C07-1, F-C07-2). Tied to the code by differential execution of the "
           "extracted model and the real resolver on the same recorded client table; every clause is also evaluated directly on "
           "the Go graphs (direct oracle with shrinking)."),
